@@ -327,4 +327,5 @@ type IterV struct {
 	kt    types.Type
 	vt    types.Type
 	str   *T // range over a constant string
+	fixed, checked bool
 }
